@@ -150,7 +150,7 @@ class _Generator(Generator):
         location = self.location_inner()
 
         if type_.number_of_bits in [8, 16, 32, 64] and \
-                checker.minimum in [0, -128, -32768, -2147483648, -9223372036854775808]:
+                checker.minimum in [0, -(2 ** (type_.number_of_bits - 1))]:
             return (
                 [
                     'encoder_append_{}(encoder_p, src_p->{});'.format(
